@@ -25,6 +25,10 @@ def run_extractor(pid):
 
 def run_suite(pid, suite, seed, tier):
     kind = suite[0]
+    if kind == "l1" and suite[1] == "opts":
+        if core.CLIOPTS_BUILD_ERROR:
+            raise core.Failure("the harness binary that compiles /repo/src/*.rs in (cliopts) does not build", core.CLIOPTS_BUILD_ERROR)
+        return core.run_suite(os.path.join(core.TARGET, "debug", "cliopts"), ["opts", tier], seed)
     if kind == "l1":
         return core.run_suite(L1, [suite[1], tier], seed)
     if kind == "py":
